@@ -263,9 +263,15 @@ func runC19(c c19Case) (out lib.Outcome) {
 		named, nErr, _ := hasErrorNaming(streams, "max_externalized_response_bytes")
 		// Arrow size of the result batch: offsets (8) + data
 		asize := int64(c.Size) + 8
+		// my Arrow-size estimate ignores the validity bitmap and padding: stay
+		// out of a 16-byte band around the threshold and the cap
+		if d := asize - c.Thresh; d >= -16 && d <= 16 {
+			out.Label("ambiguous-near-threshold")
+			return
+		}
 		externalised := asize >= c.Thresh
 		delta := asize - c.Cap
-		out.NonTrivial = externalised && delta >= -100 && delta <= 100
+		out.NonTrivial = externalised && delta >= -150 && delta <= 150
 		if out.NonTrivial {
 			out.Label("near-cap")
 		}
@@ -274,6 +280,10 @@ func runC19(c c19Case) (out lib.Outcome) {
 			if st.count() != 0 || nErr != 0 {
 				out.Violate("C19/ext-below-threshold", "result below threshold: uploads=%d errors=%d", st.count(), nErr)
 			}
+			return
+		}
+		if d := asize - c.Cap; d >= -16 && d <= 16 {
+			out.Label("ambiguous-near-cap")
 			return
 		}
 		if asize > c.Cap {
